@@ -27,7 +27,10 @@ type seg struct {
 	keepsText bool
 }
 
-var wsRuns = []string{"", " ", "  ", "\n", "\t", "\r\n", " \n\t ", "\n\n", " \r"}
+// runs next to actions: the four trimmable bytes, and characters that merely look like space
+// (vertical tab, form feed, NEL, no-break space, line separator, ideographic space): those are text
+var wsRuns = []string{"", " ", "  ", "\n", "\t", "\r\n", " \n\t ", "\n\n", " \r",
+	"\v", "\f", "\u0085", "\u00a0", "\u2028", "\u3000", " \u00a0 ", "\f\n", "\n\v", "\u00a0\t", " \u2003"}
 var textBitsC03 = []string{"a", "b c", "é", "日本", "x", "<p>", "&amp;", "'", `"`, "-", "- ", " -", "--", "0", ".", "\\", "\x00", "\xff"}
 
 func isTrimSpace(c byte) bool { return c == ' ' || c == '\t' || c == '\r' || c == '\n' }
